@@ -245,108 +245,270 @@ def one_path(ctx, r):
                     "%s takes only the hash" % rel.path, "%s takes more than the hash" % rel.path)
 
 
+def _origin(V, op, proj=(), depth=0):
+    """Where an operand's value comes from, through single-definition copies, reborrows, casts and tuple
+    aggregates (component-wise). Returns
+      ("call", bb, proj)            defined by the call ending block bb (proj = remaining field path)
+      ("cidx", k, from_end, place)  `&slice[k]` / `&slice[-k]` (a slice-pattern binding)
+      ("agg", rv, bb)               another aggregate
+      ("param", l, proj) / None."""
+    pl = place_of(op) if not ("l" in op and "p" in op) else op
+    for _ in range(60):
+        if pl is None:
+            return None
+        fs = []
+        for e in pl["p"]:
+            if e == "deref" or (isinstance(e, dict) and "dc" in e):
+                continue
+            if isinstance(e, dict) and "f" in e:
+                fs.append(e["f"])
+                continue
+            if isinstance(e, dict) and "cidx" in e:
+                return ("cidx", e["cidx"], bool(e.get("from_end")), pl)
+            return None
+        proj = tuple(fs) + tuple(proj)
+        l = pl["l"]
+        defs = V.assignments().get(l, [])
+        if not defs and 1 <= l <= V.argc:
+            return ("param", l, proj)
+        if len(defs) != 1:
+            return None
+        bb, j, rv = defs[0]
+        if j == "term":
+            return ("call", bb, proj)
+        k = rv["k"]
+        if k in ("use", "cast"):
+            pl = place_of(rv["op"])
+            continue
+        if k == "ref":
+            pl = rv["place"]
+            continue
+        if k == "agg" and rv.get("ak") == "tuple" and proj:
+            pl = place_of(rv["ops"][proj[0]])
+            proj = proj[1:]
+            continue
+        if k == "agg":
+            return ("agg", rv, bb)
+        return None
+    return None
+
+
+_STR_VIEW = ("deref", "as_str", "as_ref", "borrow", "as_bytes", "as_mut_str", "clone", "to_owned", "to_string")
+
+
+def _str_span(V, op, bases, proj=(), depth=0):
+    """[lo, hi) of the hex string that a string operand denotes (hi None = end of the string); the string itself
+    is whatever call first produced it (recorded in `bases`)."""
+    from .c16 import _const_range, _const_value
+    o = _origin(V, op, proj)
+    if o is None or o[0] != "call" or depth > 12:
+        return None
+    bb, proj = o[1], o[2]
+    t = V.blocks[bb]["term"]
+    p = (t["callee"].get("resolved") or t["callee"].get("path") or "")
+    last = p.split("::")[-1]
+    args = t["args"]
+    if last == "index" and "Index" in (t["callee"].get("path") or "") and len(args) == 2 and not proj:
+        s0 = _str_span(V, args[0], bases, (), depth + 1)
+        rng = _const_range(V, args[1])
+        if s0 is None or rng is None:
+            return None
+        lo = s0[0] + (rng[0] or 0)
+        hi = s0[0] + rng[1] if rng[1] is not None else s0[1]
+        return (lo, hi)
+    if last in ("split_at", "split_at_checked") and len(args) == 2 and len(proj) == 1:
+        s0 = _str_span(V, args[0], bases, (), depth + 1)
+        n = _const_value(V, args[1])
+        if s0 is None or n is None:
+            return None
+        return (s0[0], s0[0] + n) if proj[0] == 0 else (s0[0] + n, s0[1])
+    if last in _STR_VIEW and len(args) == 1 and not proj:
+        return _str_span(V, args[0], bases, (), depth + 1)
+    if not proj:
+        bases.add(V.origin_key(bb))
+        return (0, None)
+    return None
+
+
+def _is_strish(prog, V, op):
+    pl = place_of(op)
+    if pl is None:
+        return False
+    s = prog.ty_str(V.locals[pl["l"]]).replace("&", "").replace("mut ", "").strip()
+    return s in ("str", "std::string::String") and not [e for e in pl["p"] if e != "deref"]
+
+
+def _path_seq(ctx, V, op, bases, depth=0):
+    """The components a path value is assembled from, in order: From/new/join calls, then the pushes on it."""
+    prog = ctx.prog
+    if depth > 10:
+        return None
+    if _is_strish(prog, V, op):
+        sp = _str_span(V, op, bases)
+        return None if sp is None else [sp]
+    o = _origin(V, op)
+    if o is None or o[0] != "call" or o[2]:
+        return None
+    bb = o[1]
+    t = V.blocks[bb]["term"]
+    p = (t["callee"].get("resolved") or t["callee"].get("path") or "")
+    last = p.split("::")[-1]
+    args = t["args"]
+    if p.endswith("std::path::Path::join") and len(args) == 2:
+        base = _path_seq(ctx, V, args[0], bases, depth + 1)
+        comp = _path_seq(ctx, V, args[1], bases, depth + 1)
+        seq = None if base is None or comp is None else base + comp
+    elif p == "std::path::PathBuf::new" and not args:
+        seq = []
+    elif last in ("from", "new", "into", "to_path_buf", "to_owned", "clone", "deref", "as_path", "as_ref", "borrow") and len(args) == 1:
+        seq = _path_seq(ctx, V, args[0], bases, depth + 1)
+    else:
+        return None
+    if seq is None:
+        return None
+    # in-place appends to the value this call created
+    dest = t["dest"]["l"]
+    holders = {dest}
+    changed = True
+    while changed:
+        changed = False
+        for l, defs in V.assignments().items():
+            for (dbb, j, rv) in defs:
+                if j != "term" and rv["k"] == "use" and "move" in rv["op"] and not rv["op"]["move"]["p"] \
+                        and rv["op"]["move"]["l"] in holders and l not in holders and l != 0:
+                    holders.add(l)
+                    changed = True
+    pushes = [c for c in V.calls() if (c.path or "") == "std::path::PathBuf::push" and c.term["args"]
+              and ctx.world.borrowed_local(V, c.term["args"][0]) in holders]
+    pushes.sort(key=lambda c: sum(1 for d in pushes if V.dominates(d.bb, c.bb)))
+    for a, b2 in zip(pushes, pushes[1:]):
+        if not V.dominates(a.bb, b2.bb):
+            return None
+    for c in pushes:
+        comp = _path_seq(ctx, V, c.term["args"][1], bases, depth + 1)
+        if comp is None or not V.dominates(bb, c.bb):
+            return None
+        seq = seq + comp
+    return seq
+
+
+def _buffer_local(V, op, depth=0):
+    """The local that owns the buffer an operand views (through reborrows, deref/as_slice calls and helper
+    parameters of a flat view)."""
+    o = _origin(V, op)
+    if o is None or o[0] != "call" or o[2] or depth > 8:
+        return None
+    t = V.blocks[o[1]]["term"]
+    last = (t["callee"].get("resolved") or t["callee"].get("path") or "").split("::")[-1]
+    if last in ("deref", "as_slice", "as_ref", "borrow", "as_bytes", "as_str", "deref_mut", "as_mut_slice") and len(t["args"]) == 1:
+        return _buffer_local(V, t["args"][0], depth + 1)
+    return t["dest"]["l"] if not t["dest"]["p"] else None
+
+
+def _append_sequence(ctx, V, buf):
+    """The slice-pattern bindings appended to the byte buffer `buf`, in order: [(k, from_end), ..] or None."""
+    apps = [c for c in V.calls() if (c.path or "").split("::")[-1] in ("extend_from_slice", "extend", "push_str", "write_all",
+                                                                        "extend_from_within", "append")
+            and c.term["args"] and ctx.world.borrowed_local(V, c.term["args"][0]) == buf]
+    apps.sort(key=lambda c: sum(1 for d in apps if V.dominates(d.bb, c.bb)))
+    for a, b2 in zip(apps, apps[1:]):
+        if not V.dominates(a.bb, b2.bb):
+            return None
+    seq = []
+
+    def comp(op, depth=0):
+        o = _origin(V, op)
+        if o is None or depth > 10:
+            return None
+        if o[0] == "cidx":
+            return [(o[1], o[2])]
+        if o[0] == "agg" and o[1].get("ak") == "array":
+            out = []
+            for x in o[1]["ops"]:
+                y = comp(x, depth + 1)
+                if y is None or len(y) != 1:
+                    return None
+                out += y
+            return out
+        if o[0] != "call":
+            return None
+        t = V.blocks[o[1]]["term"]
+        last = (t["callee"].get("resolved") or t["callee"].get("path") or "").split("::")[-1]
+        if last in ("as_encoded_bytes", "as_os_str", "as_bytes", "as_ref", "deref", "borrow", "to_str", "as_str",
+                    "next", "into_iter", "iter", "copied", "cloned", "as_slice", "unwrap", "expect") and t["args"]:
+            return comp(t["args"][0], depth + 1)
+        return None
+    for c in apps:
+        y = comp(c.term["args"][1])
+        if y is None:
+            return None
+        seq += y
+    return seq
+
+
 def tiling(ctx, r):
     prog = ctx.prog
     hash_ty = ctx.anchors.get("HASH")
-    # the relative-path function: takes the hash, returns PathBuf, indexes a hex string with constant ranges
+    n_hex = 2 * (prog.consts.get("types::HASH_SIZE", {}).get("v") or 32)
+    # the relative-path function: takes the hash, returns a PathBuf
     for b in prog.bodies.values():
         if b.is_closure or b.argc != 1 or prog.adt_of(b.locals[1])[0] != hash_ty:
             continue
         if prog.adt_of(b.locals[0])[0] != "std::path::PathBuf":
             continue
-        sl = Slicer(ctx.world, b, follow_local=False)
-        ranges = []
-        for s in b.calls():
-            if (s.path or "") != "std::ops::Index::index":
-                continue
-            pl = place_of(s.term["args"][1])
-            lo = hi = None
-            for (dbb, j, rv) in b.assignments().get(pl["l"], []) if pl else []:
-                if j != "term" and rv["k"] == "agg":
-                    vals = [o["const"].get("v") if "const" in o else None for o in rv["ops"]]
-                    nm = rv.get("def", "")
-                    if nm.endswith("RangeFrom"):
-                        lo, hi = vals[0], "end"
-                    elif nm.endswith("RangeTo"):
-                        lo, hi = 0, vals[0]
-                    elif nm.endswith("Range"):
-                        lo, hi = vals[0], vals[1]
-                    elif nm.endswith("RangeFull"):
-                        lo, hi = 0, "end"
-            src = sl.leaves_of_operand(s.term["args"][0])
-            ranges.append((s, lo, hi, src))
-        if not ranges:
+        V = ctx.flat(b)
+        bases = set()
+        seq = _path_seq(ctx, V, {"move": {"l": 0, "p": []}}, bases)
+        if seq is None:
+            r.bad("tiles", b, "cannot follow how %s assembles the path from slices of the hex string" % b.path)
             continue
-        # source string: hex of the whole hash
-        srcs = set().union(*[x[3] for x in ranges])
-        hexed = all(l[0] == "call" for l in srcs) and len(srcs) == 1
-        r.check(hexed, "hex-source", b, "all components are slices of one hex string (%s)" % ", ".join(fmt_leaf(l) for l in srcs),
-                "the path components are cut from different strings: %s" % sorted(fmt_leaf(l) for l in srcs))
-        # order of use in the joins: the final value is join(join(from(c0), c1), c2)
-        order = _join_order(b, sl)
-        rs = sorted(ranges, key=lambda x: (x[1] if x[1] is not None else 1 << 30))
+        r.check(len(bases) == 1, "hex-source", b, "all components are slices of one hex string (%s)" % ", ".join(
+            "%s bb%d" % k for k in sorted(bases)), "the path components are cut from different strings: %s" % sorted(bases))
+        fmt = lambda x: "[%s..%s)" % (x[0], "end" if x[1] is None else x[1])
+        rs = sorted(seq, key=lambda x: x[0])
         pos = 0
         ok = True
-        for (s, lo, hi, _) in rs:
+        for (lo, hi) in rs:
             if lo != pos:
                 ok = False
-            pos = hi if hi != "end" else "end"
-        n_hex = 2 * (prog.consts.get("types::HASH_SIZE", {}).get("v") or 32)
-        ok = ok and pos == "end" and all(isinstance(x[2], int) and x[2] <= n_hex or x[2] == "end" for x in rs)
-        r.check(ok, "tiles", b, "components tile the hex string: %s" % ", ".join("[%s..%s)" % (x[1], x[2]) for x in rs),
-                "the component ranges %s do not tile [0, %d) in order" % (", ".join("[%s..%s)" % (x[1], x[2]) for x in rs), n_hex))
-        # components are joined in increasing order of their start
-        if order is not None:
-            starts = []
-            for op_leaves in order:
-                for (s, lo, hi, _) in ranges:
-                    if any(l[0] == "call" and l[2] == s.bb for l in op_leaves):
-                        starts.append(lo)
-            r.check(starts == sorted(starts) and len(starts) == len(ranges), "join-order", b,
-                    "components are joined in order %s" % starts, "components are joined in order %s" % starts)
+            pos = hi
+        ok = ok and pos is None and len(rs) >= 1 and all(x[1] is None or x[1] <= n_hex for x in rs)
+        r.check(ok, "tiles", b, "components tile the hex string: %s" % ", ".join(fmt(x) for x in rs),
+                "the component ranges %s do not tile [0, %d) in order" % (", ".join(fmt(x) for x in rs), n_hex))
+        starts = [x[0] for x in seq]
+        r.check(starts == sorted(starts), "join-order", b,
+                "components are joined in order %s" % starts, "components are joined in order %s" % starts)
     # parser: last three components, in order, decoded into exactly HASH_SIZE bytes
     from .c16 import parsers
     for b in parsers(ctx):
         if prog.adt_of(b.locals[1])[0] != "std::path::Path":
             continue
-        sl = Slicer(ctx.world, b)
-        decs = [s for s in b.calls() if (s.path or "").startswith("hex::decode")]
+        V = ctx.flat(b)
+        decs = [s for s in V.calls() if (s.path or "").startswith("hex::decode")]
         okd = False
+        bufs = set()
         for d in decs:
             # destination is a fixed [u8; HASH_SIZE] array
-            dst = ctx.world.borrowed_local(b, d.term["args"][1]) if len(d.term["args"]) > 1 else None
+            dst = ctx.world.borrowed_local(V, d.term["args"][1]) if len(d.term["args"]) > 1 else None
             if dst is not None:
-                t = prog.types[prog.strip_refs(b.locals[dst])]
+                t = prog.types[prog.strip_refs(V.locals[dst])]
                 n = t.get("n")
                 if n is None:
-                    for (dbb, j, rv) in b.assignments().get(place_of(d.term["args"][1])["l"], []):
+                    for (dbb, j, rv) in V.assignments().get(place_of(d.term["args"][1])["l"], []):
                         if j != "term" and rv["k"] == "cast":
                             n = prog.types[prog.strip_refs(rv["from"])].get("n")
                 okd = n == (prog.consts.get("types::HASH_SIZE", {}).get("v") or 32)
+            src = _buffer_local(V, d.term["args"][0]) if d.term["args"] else None
+            if src is not None:
+                bufs.add(src)
         r.check(okd, "parse-exact-length", b, "%s decodes into exactly HASH_SIZE bytes (hex::decode_to_slice rejects any other length)" % b.path,
                 "%s does not decode into a fixed HASH_SIZE buffer" % b.path)
-        # slice pattern [.., a, b, c] and iteration order a, b, c
-        pat = []
-        for bb in b.normal_blocks():
-            for s in b.stmts(bb):
-                if s["k"] == "assign" and s["rv"]["k"] == "ref":
-                    for e in s["rv"]["place"]["p"]:
-                        if isinstance(e, dict) and "cidx" in e and e["from_end"]:
-                            pat.append((s["lhs"]["l"], e["cidx"]))
-        arr = None
-        for bb in b.normal_blocks():
-            for s in b.stmts(bb):
-                if s["k"] == "assign" and s["rv"]["k"] == "agg" and s["rv"]["ak"] == "array" and len(s["rv"]["ops"]) == 3:
-                    arr = [root_local(b, o) for o in s["rv"]["ops"]]
-        okp = False
-        if arr is not None and len(pat) >= 3:
-            idx = []
-            for l in arr:
-                m = [c for (pl, c) in pat if pl == l]
-                idx.append(m[0] if m else None)
-            okp = idx == [3, 2, 1]
+        # slice pattern [.., a, b, c] appended in the order a, b, c
+        seq = _append_sequence(ctx, V, list(bufs)[0]) if len(bufs) == 1 else None
+        okp = seq == [(3, True), (2, True), (1, True)]
         r.check(okp, "parse-last-three-in-order", b, "%s concatenates components [-3], [-2], [-1] in that order" % b.path,
-                "%s does not concatenate the last three components in order (from-end indices %s)" % (b.path, pat))
+                "%s does not concatenate the last three components in order (appended: %s)" % (
+                    b.path, "cannot follow" if seq is None else ", ".join("[%s%d]" % ("-" if fe else "", k) for k, fe in seq)))
 
 
 def _join_order(b, sl):
